@@ -43,6 +43,9 @@ var Serves = map[string][]string{
 	"local": {"SvcA"},
 }
 
+// ExtraRoute is the prefix of the binding that only B2's (newer) build of SvcA.Ping declares.
+const ExtraRoute = "/fx/svca/v2"
+
 // Backend is one real gRPC server.
 type Backend struct {
 	Name  string
@@ -238,7 +241,16 @@ func Setup() {
 		}
 		// B2 is "another build" of the same schema: identical field numbers and types, but the
 		// messages declare their fields in the opposite order (legal, wire compatible).
-		World2, err = dyn.NewWorld(append([]*descriptorpb.FileDescriptorProto{reordered(uni.BaseFile())}, files()...)...)
+		// ... and it is a newer version of svca.proto, in which SvcA.Ping gained one more binding
+		// (ExtraRoute): a rule only this owner declares.
+		files2 := files()
+		for _, f := range files2 {
+			if f.GetName() == "svca.proto" {
+				rule := proto.GetExtension(f.Service[0].Method[0].Options, annotations.E_Http).(*annotations.HttpRule)
+				rule.AdditionalBindings = append(rule.AdditionalBindings, &annotations.HttpRule{Pattern: &annotations.HttpRule_Get{Get: ExtraRoute + "/{f_bytes}"}})
+			}
+		}
+		World2, err = dyn.NewWorld(append([]*descriptorpb.FileDescriptorProto{reordered(uni.BaseFile())}, files2...)...)
 		if err != nil {
 			panic(err)
 		}
